@@ -4,7 +4,7 @@
 From Coq Require Import List Bool Arith ZArith.
 Import ListNotations.
 From Stab.model Require Import Base StatusM Readiness StageStat Engine.
-From Stab.proofs Require Import EngineMx EngineEx.
+From Stab.proofs Require Import EngineMx EngineChoice EngineEx.
 
 (* In every run - deliveries in any order, redeliveries, crash cuts after any commit, recovery sweeps, cancels,
    signals, pauses / unpauses, jumps, operator restarts - of a workflow submitted with no stage started: a stage that
@@ -32,6 +32,24 @@ Theorem C11_engine_mutex_crash_cut : forall orc s id k,
   never_suspends orc -> mx_ok s -> mx_ok (step orc s (DeliverCut id k)).
 Proof. intros orc s id k Ns M. apply mx_step; assumption. Qed.
 
+(* Deferred choice, with NO premise on the tasks: in every run, every stage that ever performed a NOT_STARTED -> RUNNING
+   claim commit (the ghost start ledger) still exists and owns the claim row of its choice group ... *)
+Theorem C11_engine_choice_owner : forall orc stages wmax acts,
+  ch_inv (run orc (init_state stages wmax) acts).
+Proof. intros. apply ch_run, ch_init. Qed.
+
+(* ... hence a group has at most ONE stage that ever started - across redeliveries, a crash between the claim and the
+   plan commit followed by recovery (finding F11), jumps that re-arm the group, and operator restarts *)
+Theorem C11_engine_choice_one_winner : forall orc stages wmax acts i j ji jj a b g,
+  let s := run orc (init_state stages wmax) acts in
+  In (i, ji) (g_starts s) -> In (j, jj) (g_starts s) ->
+  nth_error (w_stages s) i = Some a -> nth_error (w_stages s) j = Some b ->
+  s_choice a = Some g -> s_choice b = Some g -> i = j.
+Proof.
+  intros orc stages wmax acts i j ji jj a b g s Hi Hj Ha Hb Ga Gb.
+  apply (ch_inv_one_winner s i j ji jj a b g); try assumption. apply C11_engine_choice_owner.
+Qed.
+
 (* non-vacuity: the premises hold for a submitted workflow, and a mutex key does get claimed *)
 Example C11_engine_witness :
   let a := ex_stage [] 1 in
@@ -41,3 +59,5 @@ Proof. split; [repeat constructor|intros i t n; discriminate]. Qed.
 Print Assumptions C11_engine_mutex_owner_partial.
 Print Assumptions C11_engine_mutex_exclusive_partial.
 Print Assumptions C11_engine_mutex_crash_cut.
+Print Assumptions C11_engine_choice_owner.
+Print Assumptions C11_engine_choice_one_winner.
